@@ -41,6 +41,15 @@ def make_model(d):
     K, T = d["K"], d["T"]
     args = arguments.UserArguments(0.1, 5, 1.0, 2, 0, K, 1, W, False)
     X = rng.normal(size=(T, nw)) * float(d["spread"])
+    offset = np.zeros(nw)
+    if d.get("offset"):
+        # data and means far from the origin compared with their spread (a formula expanded around 0 cancels here)
+        offset = rng.choice([-1.0, 1.0], size=nw) * float(d["offset"]) * float(d["spread"])
+        X = X + offset[None, :]
+    if d.get("dtype") == "float32":
+        X = X.astype(np.float32)
+    elif d.get("dtype") == "int64":
+        X = np.round(X * 4).astype(np.int64)
     st = ms.ModelState.empty_model(args, X)
     st.point_labels = [i % K for i in range(T)]
     for k, c in enumerate(st.clusters):
@@ -54,7 +63,7 @@ def make_model(d):
             A = rng.normal(size=(nw, nw)) / math.sqrt(nw)
             th = (A @ A.T + 0.1 * np.eye(nw)) * d["scale"]
         c.train_inverse = (th + th.T) / 2
-        c.stacked_data_mean = rng.normal(size=nw)
+        c.stacked_data_mean = rng.normal(size=nw) * (4.0 if d.get("dtype") == "int64" else 1.0) + offset * (4.0 if d.get("dtype") == "int64" else 1.0)
     lay = d["layout"]
     if lay == "F":
         X = np.asfortranarray(X)
@@ -74,7 +83,8 @@ def run_synth_case(res, d):
     nw, W, K, T = d["nw"], d["W"], d["K"], d["T"]
     mus = [np.array(c.stacked_data_mean, copy=True) for c in st.clusters]
     ths = [np.array(c.train_inverse, copy=True) for c in st.clusters]
-    Xc = np.array(X, copy=True)
+    Xc = np.array(X, copy=True).astype(np.float64)
+    X_in = np.array(X, copy=True)
     try:
         tab = lk.all_points_all_clusters_log_likelihood(st, X)
     except Exception as e:
@@ -121,8 +131,12 @@ def run_synth_case(res, d):
         if not (abs(float(v) - ref[i, k]) <= bound[i, k]):
             res.violation("point_log_likelihood(point %d, cluster %d)=%.15g, log-density %.15g (bound %.3g)" % (i, k, float(v), ref[i, k], bound[i, k]), d)
         res.count("point_calls_checked")
-    if not np.array_equal(np.asarray(X), Xc):
+    if not np.array_equal(np.asarray(X), X_in):
         res.violation("likelihood table function modified the data", d)
+    if d.get("offset"):
+        res.count("cases_with_common_offset")
+    if d.get("dtype"):
+        res.count("cases_with_non_float64_windows")
     # history: the same state object is given new MRFs (as the next round's optimisation does) and scored again
     if d.get("rescore"):
         rng2 = np.random.default_rng(d["rng"] + [3])
@@ -164,7 +178,9 @@ def gen_desc(rng, spec, i):
     lay = LAYOUTS[int(rng.integers(0, 2 if jit else len(LAYOUTS)))]
     return dict(what="synth", rng=[int(v) for v in spec["seed"]] + [i], nw=nw, W=W, K=int(rng.integers(1, 5)), T=int(rng.integers(1, 25)),
                 scale=scale, spread=float(rng.choice([0.1, 1.0, 50.0])), layout=lay,
-                theta="toeplitz" if rng.random() < 0.25 else "dense", arb=(i % 5 == 0), rescore=(i % 3 == 0))
+                theta="toeplitz" if rng.random() < 0.25 else "dense", arb=(i % 5 == 0), rescore=(i % 3 == 0),
+                offset=(float(10 ** rng.uniform(3, 7)) if i % 4 == 1 else 0.0),
+                dtype=(["float32", "int64"][int(rng.integers(0, 2))] if (i % 7 == 3 and not jit) else None))
 
 
 def run_shard(spec, res):
@@ -199,6 +215,8 @@ def finalize(merged, tier):
     ec.min_counter(merged, out, "result_ll_entries_checked", 1500 if q else 15000)
     ec.min_counter(merged, out, "mpmath_arbitrations", 5 if q else 50)
     ec.min_counter(merged, out, "rescored_tables", 40 if q else 400)
+    ec.min_counter(merged, out, "cases_with_common_offset", 40 if q else 400)
+    ec.min_counter(merged, out, "cases_with_non_float64_windows", 15 if q else 150)
     ec.unexpected(merged, out)
     out["max_dev_over_bound"] = merged["counters"].get("max_dev_over_bound_x1000", 0) / 1000.0
     return out
